@@ -24,6 +24,7 @@ CHUNK = {"quick": 10, "thorough": 24}
 PROBES = ["two_sessions_in_one_simulator", "older_url_granted_again", "regrant_same_name", "prefix_related_urls", "lookup_extends_several", "lookup_unknown", "temporary_second_lookup",
           "temporary_via_uploader", "proxy_cap_registered_twice", "proxy_cap_in_seed", "wrapper_resolved",
           "asset_cap_unattributed", "two_sessions", "seed_twice_same_region", "lookup_older_grant", "by_name_most_recent",
+          "by_name_after_one_shot_consumed_among_several",
           "seed_interleaved_with_lookup"]
 COMPONENTS = {
     "real": ["ProxiedRegion.update_caps / _recalc_caps / register_cap / register_wrapper_cap / register_proxy_cap / "
@@ -57,6 +58,10 @@ def gen_plan(rng: random.Random, tier: str) -> dict:
         "tail": 0.5,
     }
     n = rng.randint(3, 30 if big else 16)
+    # some runs keep several one-shot caps of one kind in flight at once (uploads started back to back)
+    temp_heavy = rng.random() < 0.3
+    temp_name = rng.choice(["NewFileAgentInventory", "UpdateScriptAgent"])
+    hot = (0, rng.randrange(cfg["n_regions"][0]))
     steps = []
     t = 0.01
     url_counter = [0]
@@ -73,6 +78,10 @@ def gen_plan(rng: random.Random, tier: str) -> dict:
         s = rng.randrange(n_sessions)
         r = rng.randrange(cfg["n_regions"][s])
         x = rng.random()
+        if temp_heavy and rng.random() < 0.75:
+            x = rng.choice([0.45, 0.45, 0.55, 0.9])
+            if rng.random() < 0.85:
+                s, r = hot
         if x < 0.3:
             names = rng.sample(NORMAL_NAMES, rng.randint(1, 4))
             if rng.random() < 0.6:
@@ -109,17 +118,25 @@ def gen_plan(rng: random.Random, tier: str) -> dict:
                           "times": rng.choice([1, 2, 2, 3])})
         elif x < 0.48:
             url = fresh_url(s, r, "tmp")
-            steps.append({"at": t, "op": "temp", "s": s, "r": r, "via": rng.choice(["uploader", "direct"]), "url": url,
-                          "name": rng.choice(["NewFileAgentInventory", "UpdateScriptAgent"])})
-            granted.append({"s": s, "r": r, "name": "tmp", "url": url})
+            tname = temp_name if temp_heavy and rng.random() < 0.8 else \
+                rng.choice(["NewFileAgentInventory", "UpdateScriptAgent"])
+            steps.append({"at": t, "op": "temp", "s": s, "r": r, "via": rng.choice(["uploader", "direct", "direct", "direct"] if temp_heavy else ["uploader", "direct"]),
+                          "url": url, "name": tname})
+            granted.append({"s": s, "r": r, "name": "tmp", "url": url, "tname": tname + "Uploader"})
         elif x < 0.60:
             known = [g["name"] for g in granted if (g["s"], g["r"]) == (s, r) and g["name"] != "tmp"]
+            temps = [g["tname"] for g in granted if (g["s"], g["r"]) == (s, r) and g["name"] == "tmp"]
             pool = known if known and rng.random() < 0.7 else NORMAL_NAMES + ASSET_NAMES + PROXY_NAMES
+            if temps and rng.random() < (0.7 if temp_heavy else 0.2):
+                pool = temps
             steps.append({"at": t, "op": "byname", "s": s, "r": r, "name": rng.choice(pool)})
         else:
             y = rng.random()
             if y < 0.7 and granted:
                 g = rng.choice(granted)
+                tg = [h for h in granted if h["name"] == "tmp"]
+                if temp_heavy and tg and rng.random() < 0.6:
+                    g = rng.choice(tg)
                 url = g["url"] + rng.choice(["", "/", "/sub/path", "?x=1", "/" + "z" * 5])
             elif y < 0.85:
                 url = f"https://nowhere.example.invalid/cap/{rng.randrange(10 ** 6)}"
@@ -165,6 +182,7 @@ def run_plan(plan: dict) -> RunResult:
             stopped.append(1)
 
     consumed_once = set()
+    consumed_names = set()
     with SimEnv(plan.get("seed", 0), log_level=logging.CRITICAL) as env:
         loop = env.loop
         world = HttpWorld(env, cfg)
@@ -339,6 +357,8 @@ def run_plan(plan: dict) -> RunResult:
                 want = mine[-1]
                 if len(mine) > 1:
                     res.probe("by_name_most_recent")
+                    if (st["s"], st["r"], st["name"]) in consumed_names:
+                        res.probe("by_name_after_one_shot_consumed_among_several")
                 if entry["url"] != want["url"] or entry["cap"] != (want["type"], want["url"]):
                     violate("C16/by-name/not-most-recent", name=st["name"], got=entry["url"], want=want["url"],
                             all=[g["url"] for g in mine], cap=entry["cap"])
@@ -363,6 +383,7 @@ def run_plan(plan: dict) -> RunResult:
                     if hit is not None and hit["type"] == "TEMPORARY":
                         grants.remove(hit)
                         consumed_once.add(hit["url"])
+                        consumed_names.add((hit["s"], hit["r"], hit["name"]))
                     elif not cands and url.split("?")[0].rstrip("/") in {u for u in consumed_once} | {
                             u2 for u2 in consumed_once if url.startswith(u2)}:
                         res.probe("temporary_second_lookup")
